@@ -14,14 +14,14 @@ namespace {
 
 static void dkg_init(const Tier &) { build_group_pool(2, false); }
 
-enum { PR_GJKR = 0, PR_VSS, PR_CGJKR_DKG, PR_DSS, PR_FLIP, PR_NUM };
+enum { PR_GJKR = 0, PR_VSS, PR_CGJKR_DKG, PR_DSS, PR_FLIP, PR_RVSS, PR_NUM };
 
 struct PartyOut
 {
 	bool honest, finished;
 	int fmode;                     // faulty: 0 library switch, 1 silent from the start, 2 crash after k sends, 3 byzantine links
 	std::vector<int> rets;         // return values of the protocol calls in order
-	std::string qual, y, y2, x_i, coin;
+	std::string qual, y, y2, x_i, xprime_i, coin;
 	std::vector<std::string> v_i;
 	std::vector<std::pair<std::string, std::string> > sigs; // signatures (c,s) / (r,s)
 	std::vector<std::string> sig_msgs;
@@ -39,7 +39,7 @@ struct World
 	const Plan &plan;
 	Sim S;
 	const Grp *G;
-	size_t n, t;
+	size_t n, t, trbc, tprime; // t: threshold of the protocol; trbc <= (n-1)/3: resilience of the broadcast and bound on faulty parties
 	int proto;
 	time_t Tu, Tb;
 	std::vector<PartyOut> out;
@@ -50,10 +50,10 @@ struct World
 	Z vss_secret;
 	RunResult res;
 	CerrCapture cap;
-	World(const Plan &p) : plan(p), S(p.seed, 10), G(NULL), n(4), t(1), proto(0), Tu(1), Tb(30) {}
+	World(const Plan &p) : plan(p), S(p.seed, 10), G(NULL), n(4), t(1), trbc(1), tprime(1), proto(0), Tu(1), Tb(30) {}
 	void violate(const std::string &prop, const std::string &cls, const std::string &d)
 	{
-		std::ostringstream c; c << " [proto=" << proto << " n=" << n << " t=" << t << " faulty=";
+		std::ostringstream c; c << " [proto=" << proto << " n=" << n << " t=" << t << " trbc=" << trbc << (proto == PR_RVSS ? " tprime=" + std::to_string(tprime) : std::string()) << " faulty=";
 		for (size_t i = 0; i < n; i++) if (faulty[i]) c << i << ":" << (faulty[i] - 1) << " ";
 		c << "group=" << G->fs << "/" << G->ss << " Tu=" << Tu << " Tb=" << Tb << "]";
 		res.violate(prop, cls, "dkg:" + cls, d + c.str());
@@ -107,7 +107,7 @@ static void party_main(World &W, size_t i)
 	bool do_restart = ((W.plan.get("restart", 0) >> i) & 1) != 0;
 	SimUnicast aiou(W.unet.get(), i, aiounicast::aio_scheduler_roundrobin, W.Tu);
 	SimUnicast aiou2(W.bnet.get(), i, aiounicast::aio_scheduler_roundrobin, W.Tu);
-	CachinKursawePetzoldShoupRBC rbc(W.n, W.t, i, &aiou2, aiounicast::aio_scheduler_roundrobin, W.Tb);
+	CachinKursawePetzoldShoupRBC rbc(W.n, W.trbc, i, &aiou2, aiounicast::aio_scheduler_roundrobin, W.Tb);
 	rbc.setID("tmcgsim-dkg");
 	std::ostringstream err;
 	time_t sync_t = aiounicast::aio_timeout_middle;
@@ -223,6 +223,33 @@ static void party_main(World &W, size_t i)
 			}
 			break;
 		}
+		case PR_RVSS:
+		{
+			// stand-alone Joint-RVSS with a sharing degree t' that may differ from the complaint threshold t
+			std::unique_ptr<CanettiGennaroJareckiKrawczykRabinRVSS> rv(new CanettiGennaroJareckiKrawczykRabinRVSS(W.n, W.t, i, W.tprime, G.p, G.q, G.g, G.h, G.fs, G.ss, false, false, "sim_rvss"));
+			po.rets.push_back(rv->CheckGroup() ? 1 : 0);
+			po.rets.push_back(rv->Share(&aiou, &rbc, err, libfaulty) ? 1 : 0);
+			if (do_restart && !libfaulty)
+			{
+				std::ostringstream s1; rv->PublishState(s1);
+				std::istringstream in(s1.str());
+				std::unique_ptr<CanettiGennaroJareckiKrawczykRabinRVSS> fresh(new CanettiGennaroJareckiKrawczykRabinRVSS(in, G.fs, G.ss, false, false, "sim_rvss"));
+				std::ostringstream s2; fresh->PublishState(s2);
+				po.restarts++;
+				if (s1.str() != s2.str()) po.state_mismatch = "Joint-RVSS: persisted state differs after restore";
+				else if (in.peek() != EOF && !(in >> std::ws).eof()) po.state_mismatch = "Joint-RVSS: restore left persisted state unread";
+				rv.swap(fresh);
+			}
+			po.qual = qual_str(rv->QUAL); po.x_i = zs(rv->x_i); po.xprime_i = zs(rv->xprime_i);
+			for (size_t j = 0; j < rv->C_ik.size(); j++)
+			{
+				std::string row;
+				for (size_t k = 0; k < rv->C_ik[j].size(); k++) row += zs(rv->C_ik[j][k]) + ",";
+				po.v_i.push_back(row);
+			}
+			rbc.Sync(sync_t, "step 1");
+			break;
+		}
 		case PR_FLIP:
 		{
 			JareckiLysyanskayaEDCF edcf(W.n, W.t, G.p, G.q, G.g, G.h, G.fs, G.ss);
@@ -271,8 +298,8 @@ static Plan dkg_generate(uint64_t seed, const Tier &tier)
 	int proto;
 	if (prop == "C16") proto = g.chance(1, 2) ? PR_GJKR : PR_DSS;
 	else if (prop == "C17") proto = PR_FLIP;
-	else if (prop == "C11") proto = (int)g.below(4);
-	else if (prop == "C15") { static const int pr[] = { PR_GJKR, PR_VSS, PR_CGJKR_DKG, PR_VSS, PR_GJKR, PR_CGJKR_DKG }; proto = pr[g.below(6)]; }
+	else if (prop == "C11") { static const int pr[] = { PR_GJKR, PR_VSS, PR_CGJKR_DKG, PR_DSS, PR_RVSS }; proto = pr[g.below(5)]; }
+	else if (prop == "C15") { static const int pr[] = { PR_GJKR, PR_VSS, PR_CGJKR_DKG, PR_VSS, PR_GJKR, PR_CGJKR_DKG, PR_RVSS }; proto = pr[g.below(7)]; }
 	else proto = (int)g.below(PR_NUM);
 	if (tier.opt.count("proto")) proto = atoi(tier.opt.find("proto")->second.c_str());
 	p.property = prop.empty() ? "C15" : prop;
@@ -282,7 +309,15 @@ static Plan dkg_generate(uint64_t seed, const Tier &tier)
 	if (proto == PR_DSS && !tier.thorough && n > 5) n = 4;
 	int tmax = (n - 1) / 3;
 	int t = tmax ? (int)g.range(g.chance(3, 4) ? tmax : 0, tmax) : 0;
+	// the New-DKG and the dealer-based VSS tolerate t < n/2 (the broadcast below them keeps (n-1)/3, which
+	// also bounds the number of faulty parties here): thresholds up to 3 with seven parties
+	if ((proto == PR_GJKR || proto == PR_VSS) && g.chance(1, 4))
+	{
+		if (proto == PR_GJKR && g.chance(1, 2)) n = 7;
+		if (n >= 5) { t = (n - 1) / 2; p.cfg["bigt"] = 1; }
+	}
 	p.cfg["n"] = n; p.cfg["t"] = t;
+	p.cfg["tprime"] = (proto == PR_RVSS) ? (int64_t)g.range(t, std::min(2 * t, n - tmax - 2 > t ? n - tmax - 2 : t)) : t;
 	p.cfg["group"] = (int64_t)g.below(group_pool().size());
 	p.cfg["lat"] = (int64_t)g.below(3);                    // 0: 1..50 ms, 1: 1..300 ms, 2: 1..800 ms
 	p.cfg["Tu"] = (p.cfg["lat"] < 2 && g.chance(1, 2)) ? 3 : 5;
@@ -299,7 +334,7 @@ static Plan dkg_generate(uint64_t seed, const Tier &tier)
 	bool faults = tier.opt.count("nofaults") == 0 && !g.chance(1, 4);
 	if (faults && t > 0)
 	{
-		int f = (int)g.range(1, t);
+		int f = (int)g.range(1, std::min(t, tmax));
 		std::set<int> used;
 		for (int k = 0; k < f; k++)
 		{
@@ -315,7 +350,10 @@ static RunResult dkg_execute_inner(const Plan &plan, const std::vector<uint64_t>
 	World W(plan);
 	W.G = &group_pool()[(size_t)plan.get("group", 0) % group_pool().size()];
 	W.n = (size_t)std::max<int64_t>(2, std::min<int64_t>(8, plan.get("n", 4)));
-	W.t = (size_t)std::max<int64_t>(0, std::min<int64_t>((int64_t)(W.n - 1) / 3, plan.get("t", 1)));
+	W.trbc = (W.n - 1) / 3;
+	W.t = (size_t)std::max<int64_t>(0, std::min<int64_t>((int64_t)(plan.get("bigt", 0) ? (W.n - 1) / 2 : W.trbc), plan.get("t", 1)));
+	if (W.trbc > W.t) W.trbc = W.t;
+	W.tprime = (size_t)std::max<int64_t>((int64_t)W.t, std::min<int64_t>((int64_t)W.n - 1, plan.get("tprime", (int64_t)W.t)));
 	W.proto = (int)(plan.get("proto", 0) % PR_NUM);
 	W.Tu = (time_t)plan.get("Tu", 1); W.Tb = (time_t)plan.get("Tb", 45);
 	W.out.resize(W.n); W.faulty.assign(W.n, 0); W.sendctr.assign(W.n, 0);
@@ -325,7 +363,7 @@ static RunResult dkg_execute_inner(const Plan &plan, const std::vector<uint64_t>
 		if (plan.ops[i].kind == "f_faulty")
 		{
 			size_t z = (size_t)plan.ops[i].arg(0) % W.n;
-			if (W.faulty[z] || nf >= W.t) continue;
+			if (W.faulty[z] || nf >= W.trbc) continue;
 			W.faulty[z] = 1 + (int)(plan.ops[i].arg(1) % 5); nf++;
 			crash_after[z] = plan.ops[i].arg(2); bseed[z] = plan.ops[i].arg(3);
 			W.out[z].honest = false; W.out[z].fmode = W.faulty[z] - 1;
@@ -548,6 +586,52 @@ static RunResult dkg_execute_inner(const Plan &plan, const std::vector<uint64_t>
 						if (!changed && W.t > 0) W.violate("C15", "refresh_keeps_shares", "no honest share changed in the refresh");
 					}
 					W.res.cnt["probe.refresh_checked"]++;
+				}
+			}
+		}
+		// stand-alone Joint-RVSS: commitments of the qualified dealers agree, every honest share pair opens the
+		// combined commitment, and every (t'+1)-subset of honest shares interpolates to the same secret
+		if (W.res.ok() && W.proto == PR_RVSS)
+		{
+			std::vector<size_t> Q; { std::istringstream qs(W.out[H[0]].qual); std::string tok; while (std::getline(qs, tok, ',')) if (!tok.empty()) Q.push_back((size_t)atoi(tok.c_str())); }
+			for (size_t a = 1; a < H.size() && W.res.ok(); a++)
+				for (size_t k = 0; k < Q.size(); k++)
+					if (Q[k] < W.out[H[0]].v_i.size() && Q[k] < W.out[H[a]].v_i.size() && W.out[H[0]].v_i[Q[k]] != W.out[H[a]].v_i[Q[k]])
+					{ W.violate("C15", "rvss_commitments_differ", "honest parties hold different commitments of qualified dealer " + std::to_string(Q[k])); break; }
+			for (size_t a = 0; a < H.size() && W.res.ok(); a++)
+			{
+				const PartyOut &po = W.out[H[a]];
+				Z x, xp, lhs, t1, rhs(1), idx, pw;
+				mpz_set_str(x, po.x_i.c_str(), 16); mpz_set_str(xp, po.xprime_i.c_str(), 16);
+				mpz_powm(lhs, G.g, x, G.p); mpz_powm(t1, G.h, xp, G.p); mpz_mul(lhs, lhs, t1); mpz_mod(lhs, lhs, G.p);
+				for (size_t k = 0; k < Q.size(); k++)
+				{
+					if (Q[k] >= po.v_i.size()) continue;
+					std::istringstream row(po.v_i[Q[k]]); std::string tok; size_t e = 0;
+					while (std::getline(row, tok, ','))
+					{
+						if (tok.empty()) continue;
+						Z c; mpz_set_str(c, tok.c_str(), 16);
+						mpz_set_ui(idx, (unsigned long)(H[a] + 1)); mpz_pow_ui(pw, idx, (unsigned long)e);
+						mpz_powm(t1, c, pw, G.p); mpz_mul(rhs, rhs, t1); mpz_mod(rhs, rhs, G.p); e++;
+					}
+					if (e != W.tprime + 1) { W.violate("C15", "rvss_commitment_count", "dealer " + std::to_string(Q[k]) + " has " + std::to_string(e) + " commitments at party " + std::to_string(H[a]) + ", t'+1 = " + std::to_string(W.tprime + 1)); break; }
+				}
+				if (W.res.ok() && mpz_cmp(lhs, rhs)) W.violate("C15", "rvss_share_does_not_open_commitments", "g^{x_i} h^{x'_i} of honest party " + std::to_string(H[a]) + " differs from the product of the qualified dealers' commitments");
+				W.res.cnt["probe.rvss_share_checked"]++;
+			}
+			if (W.res.ok() && H.size() >= W.tprime + 1)
+			{
+				std::vector<std::vector<size_t> > subs; std::vector<size_t> cur; subsets(H.size(), W.tprime + 1, 0, cur, subs);
+				Z x0; bool first = true;
+				for (size_t s2 = 0; s2 < subs.size() && W.res.ok(); s2++)
+				{
+					std::vector<std::pair<size_t, Z> > pts;
+					for (size_t k = 0; k < subs[s2].size(); k++) { Z x; mpz_set_str(x, W.out[H[subs[s2][k]]].x_i.c_str(), 16); pts.push_back(std::make_pair(H[subs[s2][k]], x)); }
+					Z x; lagrange_at_zero(pts, G.q, x);
+					if (first) { x0 = x; first = false; }
+					else if (mpz_cmp(x, x0)) W.violate("C15", "subsets_interpolate_differently", "two (t'+1)-subsets of honest Joint-RVSS shares interpolate to different secrets");
+					W.res.cnt["probe.subsets_interpolated"]++;
 				}
 			}
 		}
